@@ -10,9 +10,15 @@ import _help_c18 as H
 PID = "C18"
 META = dict(
     category="proof",
-    text=("CBMC code contracts on the real stage/cache machinery of SimTK::State, cut mechanically each run."),
-    note=("Trusted: CBMC 6.11 + MiniSat, extractor rule tables."),
-    technique="CBMC function contracts (dfcc), ghost indices, loop contract; inductive validity invariant (Lemma L-valid)",
+    text=("Contracts on the real stage/cache machinery of SimTK::State (class Stage via M1; PerSubsystemInfo, CacheEntryInfo, StateImpl members cut from "
+          "StateImpl.h/State.cpp via M2), discharged by CBMC for all inputs: a variable change lowers the system and EVERY subsystem (ghost index, symbolic "
+          "subsystem count, loop contract) to min(stage, g-1) and bumps exactly the invalidated stage versions, nothing else changes; 16 upd* accessors "
+          "invalidate their documented stage and bump the right value versions; isUpToDate equals the documented rule; the history property 'valid only if marked "
+          "valid after the last change to its depends-on stage' is an inductive invariant over stage versions (Lemma L-valid) preserved by every operation incl. "
+          "copyFrom. Overflow assumption: < 2^62 invalidations. Payload copies, auto-update swap, prerequisite lists not decided."),
+    note=("Trusted: CBMC 6.11 + MiniSat, extractor rule tables, Stage-as-int representation (proved on the real class). Assumed: container (Array_ / "
+          "ListOfDependents) contracts, < 2^62 invalidations. Found: F5 (stale cache entry valid in a copied State), fixed in a8c23502."),
+    technique="CBMC function contracts (dfcc) + loop-free full-domain harnesses on mechanically extracted real code; ghost indices; textual loop-contract transformation; inductive validity invariant with ghost history state",
     design_ref="4 C18")
 SPEC = H.SPEC
 
@@ -45,7 +51,7 @@ def main(ctx):
               "validatePrerequisiteVersions", "recordPrerequisiteVersions",
               "vf_subsystems_at", "vf_cacheInfo_at", "vf_discreteInfo_at"]
 
-    def R(name, harness, enforce, replace=(), loops=False, extra=(), req=(r"postcondition",), fn=None, timeout=90, **kw):
+    def R(name, harness, enforce, replace=(), loops=False, extra=(), req=(r"postcondition",), fn=None, timeout=280, **kw):
         J(cbmc_unit, name, us, harness, enforce=enforce, replace=STUBS_ + list(replace), loop_contracts=loops, cc_args=cc,
           cbmc_args=CHK + list(extra), require_props=list(req), function=fn or enforce, timeout=timeout, **kw)
     R("subsys.initialize", "h_initialize", "initialize", fn="PerSubsystemInfo::initialize")
@@ -59,7 +65,7 @@ def main(ctx):
     PCHK = ["--bounds-check", "--pointer-check", "--signed-overflow-check", "--unwind", "13", "--unwinding-assertions"]
 
     def PW(name, harness, nmin, fn):
-        J(cbmc_unit, name, us, harness, no_dfcc=True, cc_args=ccp, cbmc_args=PCHK, min_obligations=nmin, function=fn, timeout=120,
+        J(cbmc_unit, name, us, harness, no_dfcc=True, cc_args=ccp, cbmc_args=PCHK, min_obligations=nmin, function=fn, timeout=280,
           require_props=[re.escape(harness) + r"\.assertion"])
     PW("subsys.copyFrom", "h_sub_copyFrom", 7, "PerSubsystemInfo::copyFrom")
     PW("ce.isUpToDate", "h_ce_isUpToDate", 2, "CacheEntryInfo::isUpToDate")
@@ -67,13 +73,93 @@ def main(ctx):
     PW("ce.invalidate", "h_ce_invalidate", 4, "CacheEntryInfo::invalidate")
     for nm, n in [("read", 2), ("mark", 4), ("mark_window", 3), ("restore", 3), ("invalidate", 4), ("advance", 3), ("ce_invalidate", 3), ("initial", 2)]:
         PW("lvalid." + nm, "h_L_" + nm, n, "Lemma L-valid: " + nm)
+    J(cover_unit, "vacuity.ghosts", us, "h_cover_ghosts", cc_args=ccp, cbmc_args=["--unwind", "13"], expect_min=2, function="world preconditions / ghost indices")
     PW("state.noteChange", "h_noteChange", 4, "StateImpl::noteQChange/noteUChange/noteZChange/noteYChange")
     PW("state.invalidateJustSystemStage", "h_invalidateJustSystemStage", 8, "StateImpl::invalidateJustSystemStage")
     for nm in ("invalidateAll", "invalidateAllCacheAtOrAbove"):
-        J(cbmc_unit, "state." + nm, us, "h_" + nm, no_dfcc=True, cc_args=ccp, cbmc_args=PCHK, min_obligations=12, function="StateImpl::" + nm, timeout=120,
+        J(cbmc_unit, "state." + nm, us, "h_" + nm, no_dfcc=True, cc_args=ccp, cbmc_args=PCHK, min_obligations=12, function="StateImpl::" + nm, timeout=280,
           require_props=[r"h_%s\.assertion" % nm, r"%s\.assertion" % nm])
     for (cname, docstage, bumps, per_sub, doc) in accessors:
         J(cbmc_unit, "acc." + cname, us, "h_acc_" + cname, no_dfcc=True, cc_args=ccp + ["-DINVALIDATEALL_BY_CONTRACT"], cbmc_args=PCHK, min_obligations=5,
-          function="StateImpl::" + cname.replace("_sub", "(SubsystemIndex)"), timeout=120, require_props=[r"h_acc_%s\.assertion" % cname])
+          function="StateImpl::" + cname.replace("_sub", "(SubsystemIndex)"), timeout=280, require_props=[r"h_acc_%s\.assertion" % cname])
     parallel(jobs)
-    return ctx.finish(replayer=None)
+    finalize(ctx, accessors)
+    return ctx.finish(replayer=lambda ob: replay(ctx, ob))
+
+
+def finalize(ctx, accessors):
+    ctx.trust("cbmc/goto-cc/goto-instrument 6.11.0 (C++ front end for class Stage, C front end for the M2 unit and specs), MiniSat")
+    ctx.trust("checks/_help_c18.py + tools/extract.py rule tables (extraction_report.json lists every rewrite and every dropped token)")
+    ctx.trust("representation of SimTK::Stage by its level (operator int) in the M2 unit: comparison operators, prev(), next(), invalidate() of the real class are proved equal to the integer operations in units stage.*")
+    ctx.assume("OVERFLOW ASSUMPTION: fewer than 2^62 invalidations / value changes: every StageVersion and ValueVersion is in [1, 2^62) in every precondition (they are long long; ++ would overflow otherwise)")
+    ctx.assume("type invariants as preconditions: stages in Empty..Infinity; cache entry dependsOn in Topology..Report, dependsOn <= computedBy <= Infinity, allocation in Topology..Instance (StateImpl::allocateCacheEntry range checks)")
+    ctx.assume("assumed contracts on container code (Array_ allocation stacks): popAllStacksBackToStage/clearAllStacks only remove entries from the end (clearAllStacks removes all) and never edit survivors; "
+               "copyAllStacksThroughStage makes the destination a prefix of the source with memberwise-copied entries (CacheEntryInfo::deepAssign = `*this = src`, stamp included)")
+    ctx.assume("assumed: ListOfDependents::notePrerequisiteChange only calls CacheEntryInfo::invalidate() on other registered entries (prerequisite notification path; each such call preserves L-valid, unit lvalid.ce_invalidate)")
+    ctx.assume("container element access a[i] is a contracted stub: index ghost_* yields the ghost element, any other index yields a separate well-formed element; ghost indices are arbitrary, so results hold for every subsystem / stage / cache entry")
+    ctx.assume("markCacheValueRealized under its documented precondition (State.h: stage >= the entry's earliest stage); the code also accepts stage == dependsOn-1 (entry marked while its depends-on stage is being realized): "
+               "covered only by lemma lvalid.mark_window (mark followed by the advance that ends the realization, no variable change in between)")
+    ctx.assume("upd* accessors: the documented minimum system stage is a precondition (then the Debug-only SimTK_STAGECHECK_GE does not throw)")
+    for k, v in H.CONSERVATIVE_OK.items():
+        ctx.assume("NOTE (not a violation, soundness-only clauses checked): " + v)
+    ctx.not_decided += [
+        "deep-copy independence of value payloads (AbstractValue clones), copies of q/u/z/weights vectors",
+        "auto-update discrete variables: swap only on request (autoUpdateDiscreteVariables, CacheEntryInfo::swapValue)",
+        "explicit prerequisite lists (ListOfDependents, registerWithPrerequisites/unregister, recordPrerequisiteVersions): only the flag upToDateWithPrerequisites is in the view",
+        "updDiscreteVariable (discrete variable update path), StateImpl::advanceSystemToStage pool allocation, StateImpl::copyFrom / invalidateCopiedStageVersions system-version rules: "
+        "exercised only by the native replay driver, not under contract",
+        "a variable change between a mark made at stage dependsOn-1 and the advance to dependsOn is not noticed by the version stamp (outside the documented precondition of markCacheValueRealized)",
+        "termination/allocation behaviour of Array_ code; thread safety",
+    ]
+    ctx.explanation = ("Real code, cut each run: class Stage (M1) and, from StateImpl.h/State.cpp (M2), PerSubsystemInfo::restoreToStage/initialize/invalidateStageJustThisSubsystem/advanceToStage/copyFrom, "
+                       "CacheEntryInfo::isUpToDate/markAsUpToDate/invalidate, StateImpl::invalidateJustSystemStage/invalidateAll/invalidateAllCacheAtOrAbove/note*Change and 16 upd* accessors. "
+                       "Proved for all inputs (ghost stage / subsystem / cache-entry indices; symbolic subsystem count via a loop contract on the loop of invalidateAll): "
+                       "stage' == min(stage, g-1) for the system and every subsystem, exactly the versions of the invalidated stages bumped, frame; value versions bumped by exactly the documented accessors; "
+                       "isUpToDate == documented rule; Lemma L-valid (inductive validity invariant over stage versions with ghost history flag) preserved by mark/restore/invalidate/advance/explicit invalidate/copyFrom and "
+                       "implying: reads valid ==> computed-by stage realized or marked valid after the last change to the depends-on stage; copyFrom version rules.")
+
+
+# ----------------------------------------------------------------------
+_exe = {}
+ACC_TOKEN = {"updTime": "Ut", "updY": "Uy", "updQ": "Uq", "updU": "Uu", "updZ": "Uz", "updUWeights": "Uw", "updZWeights": "UW",
+             "updQErrWeights": "Ue", "updUErrWeights": "UE", "updQ_sub": "Pq1", "updU_sub": "Pu1", "updZ_sub": "Pz1",
+             "updUWeights_sub": "Pw1", "updZWeights_sub": "PW1", "updQErrWeights_sub": "Pe1", "updUErrWeights_sub": "PE1"}
+PRE = "S3 aq au az c05A c16A c27A c039 c148 v07 v15 R9 m00 m10 m20 "
+BATTERY = [PRE + t for t in ("Ut", "Uy", "Uq", "Uu", "Uz", "Uw", "Ue", "UE", "I1", "I2", "I3", "I4", "I9", "J3", "J5", "J9", "D00", "D10",
+                             "Uq R9 m00 Uu R9", "x00 R9", "Uu C R9", "I4 C R9", "Uq = R9", "I2 aq c05A R5 m00 Uq C R5")]
+
+
+def replay_exe(ctx):
+    if "exe" not in _exe:
+        _exe["exe"] = native_build(ctx, "c18_replay", os.path.join(VERIF, "replay/c18_replay.cpp"), extra_srcs=[H.STATE_CPP],
+                                   libs=True, defines=["NDEBUG"], timeout=900)
+    return _exe["exe"]
+
+
+def replay(ctx, ob):
+    """Map a failed obligation to runs of the real State API (current tree: headers + State.cpp compiled in)."""
+    exe = replay_exe(ctx)
+    tries = []
+
+    def attempt(args):
+        rc, o, e, t = run([exe] + args, 120)
+        tries.append(dict(cmd="c18_replay " + " ".join(args), output=(o + e)[-600:]))
+        return bool(re.search(r"^REPRODUCED:", o, re.M))
+    unit = ob.unit
+    first = []
+    if unit.startswith("subsys.copyFrom") or "copy" in unit:
+        first.append(["copywitness"])
+    if unit.startswith("acc."):
+        tok = ACC_TOKEN.get(unit[4:])
+        if tok:
+            first += [["script", PRE + tok], ["script", PRE + tok + " R9 m00 m10 m20 " + tok]]
+    for a in first:
+        if attempt(a):
+            return dict(tries=tries[-3:]), True
+    for s in BATTERY:
+        if attempt(["script", s]):
+            return dict(tries=tries[-3:]), True
+    for seed in (ctx.seed + 1, ctx.seed + 2):
+        if attempt(["search", str(seed), "4000", "30"]):
+            return dict(tries=tries[-3:]), True
+    return dict(tries=tries[-4:], note="the real State API conformed to the documented model on the targeted scripts, the battery and 8000 random scripts"), False
